@@ -10,6 +10,7 @@ C evaluators (the statement on the real code): resolves (every key through item 
   (tree unchanged), defaults (_findall.__defaults__ after every call), history (a search inside a sequence equals
   the same search on a freshly loaded module), findfirst.
 """
+import re
 import types
 
 from harness import core
@@ -335,6 +336,29 @@ def same_found(a, b):
     return list(x.keys()) == list(y.keys()) and all(x[k] is y[k] for k in x)
 
 
+_MISSING = object()
+_GROUP = re.compile(r"^([^\[\]/]*)((?:\[-?\d+\])*)$")
+
+
+def walk_key(o, key):
+    """plain Python indexing along a key of the form //name[i][j]/name...; ('bad', why) when the key is not of that form"""
+    if not key.startswith("//"):
+        return ("bad", "prefix")
+    cur = o
+    for n, g in enumerate(key[2:].split("/") if key != "//" else []):
+        m = _GROUP.match(g)
+        if not m or not g or (not m.group(1) and not (n == 0 and isinstance(o, list))):
+            return ("bad", "group " + g)
+        try:
+            if m.group(1):  # only the first group of a list-rooted search has no name ("//[0]/a")
+                cur = dict.__getitem__(cur, m.group(1))
+            for i in re.findall(r"\[(-?\d+)\]", m.group(2)):
+                cur = list.__getitem__(cur, int(i))
+        except Exception as e:  # noqa: BLE001
+            return ("bad", type(e).__name__ + " at " + g)
+    return ("ok", cur)
+
+
 def check_search(c):
     """one search on one tree: resolves, pure, defaults"""
     o = X.convert(c["tree"], c["mode"])
@@ -359,6 +383,14 @@ def check_search(c):
                 return {"what": "resolves", "key": k, "item_access_raised": rr[1]}
             if rr[1] is not v:
                 return {"what": "resolves", "key": k, "item_access_gave": repr(rr[1])[:120], "findall_gave": repr(v)[:120]}
+            rg = core.call(lambda: o.get(k, _MISSING))
+            if rg[0] != "ok" or rg[1] is not v:
+                return {"what": "resolves", "key": k, "get_gave": repr(rg)[:120], "findall_gave": repr(v)[:120]}
+            if not has_text(c["expr"]):
+                # C19_keys_spell: the key is "//" + groups name[i][j]...; plain Python indexing along them reaches the value
+                w = walk_key(o, k)
+                if w[0] != "ok" or w[1] is not v:
+                    return {"what": "spells", "key": k, "walk": repr(w)[:160], "findall_gave": repr(v)[:120]}
         return None
     finally:
         reset_defaults()
@@ -428,13 +460,41 @@ def dfs_named(node, path, name):
     return out
 
 
+def desc_spec(node, path, name):
+    """the order of the theorem (Lean `descV`): the node's own entry `name` first, then what lies below each container
+    child in the order of the keys; a list: below each element in order"""
+    out = []
+    if isinstance(node, dict):
+        if name in dict.keys(node):
+            out.append((("//" + name) if path == "//" else (path + "/" + name), dict.__getitem__(node, name)))
+        for k in dict.keys(node):
+            v = dict.__getitem__(node, k)
+            if isinstance(v, (dict, list)):
+                out += desc_spec(v, ("//" + k) if path == "//" else (path + "/" + k), name)
+    elif isinstance(node, list):
+        for i, v in enumerate(node):
+            out += desc_spec(v, "%s[%d]" % (path, i), name)
+    return out
+
+
 def check_descendant(c):
     o = X.convert(c["tree"], c["mode"])
     want = dfs_named(o, "//", c["name"])
+    spec = desc_spec(o, "//", c["name"])
     r = core.call(lambda: o.findall("//*/" + c["name"]))
     if r[0] != "ok":
         return {"raised": r[1]}
     got = r[1] or {}
+    # C19_descendant_complete: exactly these pairs in document order
+    if [k for k, _ in spec] != list(got.keys()) or any(got[k] is not v for k, v in spec):
+        if sorted(k for k, _ in spec) == sorted(got.keys()):
+            return {"order": list(got.keys())[:6], "want_order": [k for k, _ in spec][:6]}
+    # the same search again on the same object, after other searches (also failing ones) on it
+    for other in ("*", "zz/..", "[0]", c["name"] + "/.."):
+        core.call(lambda: o.findall(other))
+    r2 = core.call(lambda: o.findall("//*/" + c["name"]))
+    if not same_found(r, r2):
+        return {"after_related_calls": show_found(r2)[:300], "first": show_found(r)[:300]}
     wd = dict(want)
     if len(wd) != len(want):
         return {"oracle_keys_collide": True}
